@@ -36,6 +36,15 @@ func stdAccounts(n int) ([]*Account, map[string]int64) {
 	return accs, bal
 }
 
+// startTime: a third of the generated worlds run with a chain clock decades ahead of the host's clock, the others a few
+// years behind it (the host clock is whatever it is when the check runs): nothing the chain decides may depend on which
+func startTime(seed int64) time.Time {
+	if seed%3 == 1 {
+		return time.Unix(4102444800, 0) // 2100-01-01
+	}
+	return time.Unix(1700000000, 0)
+}
+
 func main() {
 	setupSdkConfig()
 	if len(os.Args) < 2 {
@@ -72,7 +81,7 @@ func main() {
 		switch *profile {
 		case "did":
 			accs, bal := stdAccounts(24)
-			c, err := NewChain(GenesisSpec{Accounts: accs, Balances: bal, NodeParams: DefaultNodeParams(), ValidatorIdx: []int{0}, ValSelfBond: 1000000, StreamW: streamW}, time.Unix(1700000000, 0))
+			c, err := NewChain(GenesisSpec{Accounts: accs, Balances: bal, NodeParams: DefaultNodeParams(), ValidatorIdx: []int{0}, ValSelfBond: 1000000, StreamW: streamW}, startTime(*seed))
 			if err != nil {
 				panic(err)
 			}
@@ -82,7 +91,7 @@ func main() {
 			c.Close()
 		case "node":
 			accs, bal := stdAccounts(8)
-			c, err := NewChain(GenesisSpec{Accounts: accs, Balances: bal, NodeParams: randomNodeParams(rng), ValidatorIdx: []int{0}, ValSelfBond: 1000000, StreamW: streamW}, time.Unix(1700000000, 0))
+			c, err := NewChain(GenesisSpec{Accounts: accs, Balances: bal, NodeParams: randomNodeParams(rng), ValidatorIdx: []int{0}, ValSelfBond: 1000000, StreamW: streamW}, startTime(*seed))
 			if err != nil {
 				panic(err)
 			}
@@ -100,7 +109,7 @@ func main() {
 				np.Baseline = sdk.NewInt64Coin(Denom, 1)
 				np.BlockReward = sdk.NewInt64Coin(Denom, []int64{1000, 1000000}[rng.Intn(2)])
 			}
-			c, err := NewChain(GenesisSpec{Accounts: accs, Balances: bal, NodeParams: np, ValidatorIdx: []int{0}, ValSelfBond: 1000000, StreamW: streamW}, time.Unix(1700000000, 0))
+			c, err := NewChain(GenesisSpec{Accounts: accs, Balances: bal, NodeParams: np, ValidatorIdx: []int{0}, ValSelfBond: 1000000, StreamW: streamW}, startTime(*seed))
 			if err != nil {
 				panic(err)
 			}
@@ -122,7 +131,7 @@ func main() {
 			}
 			np := DefaultNodeParams()
 			np.VstorageThreshold = 5000000
-			c, err := NewChain(GenesisSpec{Accounts: accs, Balances: bal, NodeParams: np, ValidatorIdx: []int{0, 1}, ValBonds: []int64{1000000, 900000}, MaxVals: 1, StreamW: streamW}, time.Unix(1700000000, 0))
+			c, err := NewChain(GenesisSpec{Accounts: accs, Balances: bal, NodeParams: np, ValidatorIdx: []int{0, 1}, ValBonds: []int64{1000000, 900000}, MaxVals: 1, StreamW: streamW}, startTime(*seed))
 			if err != nil {
 				panic(err)
 			}
@@ -132,7 +141,7 @@ func main() {
 			c.Close()
 		case "select":
 			accs, bal := stdAccounts(12)
-			c, err := NewChain(GenesisSpec{Accounts: accs, Balances: bal, NodeParams: DefaultNodeParams(), ValidatorIdx: []int{0}, ValSelfBond: 1000000, StreamW: streamW}, time.Unix(1700000000, 0))
+			c, err := NewChain(GenesisSpec{Accounts: accs, Balances: bal, NodeParams: DefaultNodeParams(), ValidatorIdx: []int{0}, ValSelfBond: 1000000, StreamW: streamW}, startTime(*seed))
 			if err != nil {
 				panic(err)
 			}
